@@ -19,7 +19,8 @@ NOTES["C07"] = dict(
           "remove_duplicates (with the exact drop rule), transpose (image transposed, dims swapped), add and subtract preserve the dense image; "
           "well-formedness and order postconditions; chains by composition. The executable model is output-equal (all index/value arrays and "
           "flags) to the real Matrix classes on generated matrices and conversion chains; the dense-image predicate is also evaluated on the "
-          "implementation's output. Sequential classes only at this commit (distributed counterparts: see notes)."),
+          "implementation's output. Sequential classes only at this commit (distributed counterparts: see notes). " 
+          "Distributed and block part (harness h_c07p): ParCOO/ParCSR/ParCSC conversion chains, copies, transposes, add/subtract of operands with different halo sets, ParCSR->ParBSR->ParCSR with block sizes 1..3 on partitions aligned with the blocks; every result gathered as global scalar triplets and compared with the dense image, global dimensions and row partition; lifting lemmas for block-wise operations in Props/C07Par.lean when present."),
     note=("Trusted: Lean kernel + standard axioms; hand-written model tied by correspondence (ASan build); std::sort tie order canonicalised; "
           "integer-valued doubles; block formats and distributed conversions not yet covered."),
     technique="Lean 4 proof (permutation/bucketing lemmas) on an executable model; array-level model/implementation correspondence",
@@ -29,7 +30,8 @@ NOTES["C02"] = dict(
           "residual, mult_T) returns b +/- A x entry by entry for lists of any length; the action equals the dense image times x; storage order "
           "and format are irrelevant (conversions are permutations of the entry list). The distributed operations are tied by correspondence: "
           "results of mult/mult_append/mult_T/residual on every generated layout (default, explicit, empty ranks, columns without rows), standard "
-          "and topology-aware, equal the product with the global triplets bit for bit."),
+          "and topology-aware, equal the product with the global triplets bit for bit. " 
+          "Block variant: products mult/mult_append/mult_T/residual of ParBSR matrices (block sizes 1..3, incl. rectangular blocks) against the global product."),
     note=("Trusted: Lean kernel + standard axioms; exact arithmetic (rounding/reassociation outside the theorem; runs use integer-valued data); "
           "the distributed algorithm itself is validated per input, not proved for all layouts, at this commit."),
     technique="Lean 4 proof (induction over entry lists) on an executable model; exact differential runs against the real kernels and ParMatrix operations",
@@ -51,7 +53,8 @@ NOTES["C03"] = dict(
           "type: scalars, blocks, sparse rows), is natural in the payload, survives column filtering; the reverse exchange folds every "
           "contribution into its owner's entry and nothing else, is independent of arrival order for commutative reductions, and with sum is the "
           "exact adjoint of the forward exchange. The model's package arrays equal those of the real ParComm; buffers/results of communicate, "
-          "communicate_T, conditional_comm(_T) and the sparse-row exchanges of ParComm and TAPComm equal the model on every generated layout."),
+          "communicate_T, conditional_comm(_T) and the sparse-row exchanges of ParComm and TAPComm equal the model on every generated layout. " 
+          "The two-step node-aware package (form_S = false) is exercised like the three-step one."),
     note=("Trusted: Lean kernel + standard axioms; MPI transport (unmodified delivery, per-pair FIFO); arrival order is a model parameter "
           "(send messages compared keyed by peer). Open finding: node-aware package on a ragged last node (known_findings.json)."),
     technique="Lean 4 proof on a message-level model of the halo package; array-level correspondence with the real ParComm/TAPComm",
@@ -98,7 +101,8 @@ NOTES["C09"] = dict(
           "(partition-aware hybrid smoothing, own Gaussian elimination) reproduces the real cycle() of the distributed solvers on dumped "
           "hierarchies; histories of cycle/solve/PCG/BiCGStab calls are replayed as independent pure calls; identical inputs must give "
           "bit-identical outputs anywhere in the history; b, the user's matrix and the hierarchy (hash) must be unchanged; linearity, fixed "
-          "point and single-level exactness are also evaluated on the implementation's outputs."),
+          "point and single-level exactness are also evaluated on the implementation's outputs. " 
+          "The sequential classes (Multilevel, RugeStubenSolver, SmoothedAggregationSolver) run through the same checks on one process."),
     note="Partial: rounding; LAPACK assumed to solve the system it is given (the driver uses its own elimination); sequential Multilevel classes not yet in the harness.",
     technique="Lean 4 proof (list model + abstract linear maps) ; operation-sequence correspondence at double precision",
 )
@@ -108,7 +112,8 @@ NOTES["C01"] = dict(
           "NaN-aware scalar a NaN residual stops the loop at once, so truthfulness needs a finite residual (solve_nan_stops, solve_truthful_nf). "
           "The real solvers are driven through solve() and, from the same start, cycle by cycle; the driver recomputes every relative residual "
           "with its own SpMV/norm from the user's matrix, checks the reported history, the returned vector, the stop decision of the model on the "
-          "code's own iterates, finiteness and the true residual whenever convergence is reported."),
+          "code's own iterates, finiteness and the true residual whenever convergence is reported. " 
+          "The sequential classes (Multilevel, RugeStubenSolver, SmoothedAggregationSolver) run through the same checks on one process."),
     note="Partial: rounding (1e-6 relative on residual norms); depends on C02 (residual) and C17 (norm) for the kernels used by solve().",
     technique="Lean 4 proof of the stopping logic for arbitrary cycles; iterate-level correspondence with independent residual recomputation",
 )
@@ -118,7 +123,8 @@ NOTES["C10"] = dict(
           "0 < omega <= 2 are proved non-expansive from the splitting A = L + D + U), the V-cycle error propagation does not increase the energy "
           "norm (vcycle_nonexpansive, by induction over a dependent hierarchy type; vcycle_nonexpansive_spd discharges coarse solvability from "
           "injective P). The harness runs SPD families with SOR/SSOR weight 1 on one process and the driver evaluates the A-norm of the error "
-          "against the manufactured solution after every real cycle; Galerkin/conformity hypotheses are checked on the same dumps by C08."),
+          "against the manufactured solution after every real cycle; Galerkin/conformity hypotheses are checked on the same dumps by C08. " 
+          "The sequential classes (Multilevel, RugeStubenSolver, SmoothedAggregationSolver) run through the same checks on one process."),
     note="Partial: rounding (theorem over the reals; run allows 1e-9 relative slack).",
     technique="Lean 4 proof (Mathlib inner-product spaces, induction over levels); energy-norm evaluation of the real iterates",
 )
@@ -127,7 +133,8 @@ NOTES["C08"] = dict(
           "tap levels): the driver recomputes P^T A P from the dumped global triplets and requires equality with the stored coarse operator up to "
           "1e-8 of its largest entry, P with one row per fine and one column per coarse unknown, work vectors of the level's size, global sizes "
           "equal to sums of local sizes on every rank, every row/column identifier owned by some rank of the right level, strictly fewer "
-          "unknowns on the next level, and the stopping rule (size or depth limit). The SpGEMM used by setup is proved in C06 (galerkin)."),
+          "unknowns on the next level, and the stopping rule (size or depth limit). The SpGEMM used by setup is proved in C06 (galerkin). " 
+          "The sequential classes (Multilevel, RugeStubenSolver, SmoothedAggregationSolver) run through the same checks on one process."),
     note="The setup loop itself is validated per run (certificate), not proved for all inputs; coarsening quality is not part of the property.",
     technique="per-instance certificate checking of dumped hierarchies against the Galerkin/conformity predicates; Lean SpGEMM theorems (C06)",
 )
@@ -139,7 +146,8 @@ NOTES["C17"] = dict(
           "inner products equal sums of block inner products for every partition; the CG energy step is proved in C10 (cg_step_energy). "
           "The real sequential and distributed solvers are run on SPD / non-symmetric diagonally dominant systems (exact start, b = 0, zero "
           "guess, tolerances, limits, layouts with empty ranks); every iterate is recovered by re-running with max_iter = k and the driver "
-          "recomputes its true residual, evaluates the stop rule, compares with the Float model, and checks dot/norm on vectors with NaN/Inf."),
+          "recomputes its true residual, evaluates the stop rule, compares with the Float model, and checks dot/norm on vectors with NaN/Inf. " 
+          "Preconditioned CG: history (r_k, M r_k)/(b, M b) against the same quantity recomputed from the true residual of x_k (x_k by re-running with max_iter = k, crossing the periodic residual recomputation at iteration 8), prefix purity, stop rule."),
     note="Partial: rounding drift (1e-6 relative); PCG's mixed residual scaling is not checked (only its use as history perturbation in C09).",
     technique="Lean 4 proof of the recurrences and stop logic on an executable model; iterate-level correspondence with independent residuals",
 )
